@@ -44,11 +44,38 @@ def freshness_acceptor(ctx):
             v = fold_list(n.value, f, ix)
             if v is not None and any("ago" in x for x in v):
                 skip, sname = v, n.targets[0].id
-    t = " ".join(ast.unparse(f.node).split())
     import re as _re
-    for frag in (r"re\.split\('\\\\W', date_string\)", r"if not re\.match\('%%s' %% '\|'\.join\(%s\), (\w+)\)" % (sname or "skip"), r"return not (\w+)"):
-        if not _re.search(frag, t):
-            raise AnalysisError("C06.model", "_are_all_words_units shape changed (missing %r)" % frag)
+    if skip is None:
+        raise AnalysisError("C06.model", "_are_all_words_units.skip is not constant")
+    # structural reading (statement or expression form alike): the words are the non-empty pieces of re.split(r"\W", <string>); a word is
+    # acceptable iff re.match("|".join(skip), word); the answer is "no word is unacceptable"
+    want_pat = "|".join(skip)
+    calls = [n for n in iter_own_nodes(f.node) if isinstance(n, ast.Call)]
+    splits = [c for c in calls if ast.unparse(c.func) in ("re.split", "regex.split") and c.args and fold_str(c.args[0], f, ix) == "\\W"]
+    matches = [c for c in calls if ast.unparse(c.func) in ("re.match", "regex.match") and len(c.args) == 2 and not c.keywords]
+
+    def pattern_of(e):
+        v = fold_str(e, f, ix)
+        if v is not None:
+            return v
+        if isinstance(e, ast.Name):      # local bound once to "|".join(<skip list>)
+            defs = [n.value for n in iter_own_nodes(f.node) if isinstance(n, ast.Assign) and len(n.targets) == 1 and isinstance(n.targets[0], ast.Name)
+                    and n.targets[0].id == e.id]
+            if len(defs) == 1:
+                return pattern_of(defs[0])
+        if isinstance(e, ast.Call) and isinstance(e.func, ast.Attribute) and e.func.attr == "join" and isinstance(e.func.value, ast.Constant) \
+                and len(e.args) == 1 and isinstance(e.args[0], ast.Name) and e.args[0].id == sname:
+            return e.func.value.value.join(skip)
+        if isinstance(e, ast.BinOp) and isinstance(e.op, ast.Mod) and isinstance(e.left, ast.Constant) and e.left.value == "%s":
+            return pattern_of(e.right)
+        return None
+    t = " ".join(ast.unparse(f.node).split())
+    negated = all(any(isinstance(a_, ast.UnaryOp) and isinstance(a_.op, ast.Not) and a_.operand is m_ for a_ in ast.walk(f.node)) for m_ in matches)
+    verdict = _re.search(r"return not (\w+)", t) is not None or ("return False" in t and "return True" in t) or _re.search(r"return (not any|all)\(", t) is not None
+    if len(splits) != 1 or len(matches) != 1 or pattern_of(matches[0].args[0]) != want_pat or not verdict \
+            or not (negated or _re.search(r"return all\(", t)):
+        raise AnalysisError("C06.model", "_are_all_words_units shape changed (split on \\W: %d, re.match of the joined skip list: %s, verdict form: %s)" % (
+            len(splits), [pattern_of(m_.args[0]) == want_pat for m_ in matches], verdict))
     if skip is None:
         raise AnalysisError("C06.model", "_are_all_words_units.skip is not constant")
     from ..core.rx import module_regex
